@@ -290,6 +290,11 @@ class StateScenario(Scenario):
                 if rng.random() < h["p_fault"] and op["op"] in ("set", "assign_sub", "load_tree", "loads", "lop", "dop", "ctor", "validate", "insert_item"):
                     op["faults"] = [{"seam": "callback", "nth": rng.randint(1, 3), "kind": "callback-err",
                                      "exc": rng.choice(sorted(schema.EXC))}]
+                if op["op"] == "set" and rng.random() < 0.25:
+                    t = next((t for t in tgts if t.path == op.get("path")), None)
+                    if t is not None and t.node["kind"] == "hostname" and t.node.get("o", {}).get("resolve"):
+                        # the resolver fails for this one call (transient DNS failure)
+                        op.setdefault("faults", []).append({"seam": "dns", "nth": 1, "kind": "dns-err"})
                 return op
         return {"op": "noop", "cfg": c}
 
@@ -697,6 +702,9 @@ class StateScenario(Scenario):
                 self.check_unchanged(st, rec, s0, cfg, route, node["kind"])
             return
         exp = model.norm(node, v, st.ctx)
+        if any(f.get("kind") == "dns-err" for _, f in st.world.fired if _ == st.world.step):
+            exp = REJ if err is not None else UNSPEC     # resolution failed: the value is rejected (no read-back claim)
+            rec.probe("dns-failure-during-assignment")
         faulted = st.B.fault_fired and st.B.fault is not None and st.B.vcount >= st.B.fault.get("nth", 99)
         if err is None:
             rec.probe("set-accepted")
